@@ -18,6 +18,8 @@ pub fn drain(r: &mut Receiver<String>) -> Vec<String> {
 pub struct Sess { pub client: Client, pub rx: Receiver<String> }
 
 pub struct Node {
+    pub repl_fut: Option<std::pin::Pin<Box<dyn std::future::Future<Output = ()>>>>,
+    pub repl_in: Option<Sender<String>>,
     pub dbs: Arc<Databases>,
     pub repl_rx: Receiver<String>,
     pub sup_rx: Receiver<String>,
@@ -30,6 +32,7 @@ pub struct Node {
 pub struct World { pub node: Option<Node>, pub counter: usize, pub base: String }
 
 fn role_of(s: &str) -> ClusterRole {
+    let s = s.split(',').next().unwrap_or("");
     match s { "startingup" => ClusterRole::StartingUp, "secoundary" => ClusterRole::Secoundary, _ => ClusterRole::Primary }
 }
 
@@ -39,9 +42,13 @@ pub fn make_dbs(dir: &str, role: ClusterRole, fresh: bool) -> (Arc<Databases>, R
     let (s1, r1): (Sender<String>, Receiver<String>) = channel(100000);
     let (s2, r2): (Sender<String>, Receiver<String>) = channel(100000);
     let (keys_map, valid) = if fresh { (HashMap::new(), true) } else {
-        let km = nundb::disk_ops::load_keys_map_from_disk();
+        // the start-up decision of src/bin/main.rs (pinned by the extractor: Gen.startupDecision)
         let v = nundb::disk_ops::is_oplog_valid();
-        if !v { nundb::disk_ops::Oplog::clean_op_log_metadata_files(); }
+        let km = if v { nundb::disk_ops::load_keys_map_from_disk() } else {
+            nundb::disk_ops::Oplog::clean_op_log_metadata_files();
+            nundb::disk_ops::mark_op_log_as_invalid_on_disk().unwrap();
+            HashMap::new()
+        };
         (km, v)
     };
     let dbs = Arc::new(Databases::new("adm".into(), "pw".into(), "n1".into(), "n1".into(), s1, s2, keys_map, 1u128, valid));
@@ -114,11 +121,81 @@ impl Node {
         out
     }
 
+    /// the real replication loop, polled by hand (no executor thread)
+    pub fn start_loop(&mut self) {
+        nundb::verif::set_data_dir(Some(self.dir.clone()));
+        let (tx, rx): (Sender<String>, Receiver<String>) = channel(100000);
+        self.repl_in = Some(tx);
+        self.repl_fut = Some(Box::pin(nundb::replication_ops::start_replication_thread(rx, self.dbs.clone())));
+        // the server spawns the loop at start-up: run it up to its first wait (it opens its files)
+        if let Some(f) = self.repl_fut.as_mut() {
+            let waker = futures::task::noop_waker();
+            let mut cx = std::task::Context::from_waker(&waker);
+            let _ = std::panic::catch_unwind(std::panic::AssertUnwindSafe(|| { let _ = f.as_mut().poll(&mut cx); }));
+        }
+    }
+
+    /// move what the node queued on its replication channel into the loop and run it until it is idle
+    pub fn pump(&mut self) -> Vec<String> {
+        let mut out = vec![];
+        nundb::verif::set_data_dir(Some(self.dir.clone()));
+        let msgs = drain(&mut self.repl_rx);
+        for m in msgs {
+            out.push(format!("P {}", esc(&m)));
+            if let Some(tx) = self.repl_in.as_mut() { let _ = tx.try_send(m); }
+        }
+        if let Some(f) = self.repl_fut.as_mut() {
+            let waker = futures::task::noop_waker();
+            let mut cx = std::task::Context::from_waker(&waker);
+            let r = std::panic::catch_unwind(std::panic::AssertUnwindSafe(|| { let _ = f.as_mut().poll(&mut cx); }));
+            if r.is_err() {
+                out.push(format!("K PANIC {}", LAST_PANIC.with(|p| p.borrow_mut().take()).unwrap_or_default()));
+                self.repl_fut = None; self.repl_in = None;
+            }
+        }
+        out
+    }
+
+    /// key map, flag and oplog files (C16)
+    pub fn dump_meta(&self) -> Vec<String> {
+        nundb::verif::set_data_dir(Some(self.dir.clone()));
+        let mut out = vec![];
+        let km = self.dbs.keys_map.read().unwrap();
+        let mut ks: Vec<(&String, &u64)> = km.iter().collect(); ks.sort_by_key(|x| *x.1);
+        out.push(format!("G keysmap {}", ks.iter().map(|(k, i)| format!("{}={}", escw(k), i)).collect::<Vec<_>>().join(",")));
+        let idn = self.dbs.id_name_db_map.read().unwrap();
+        let mut ids: Vec<(&u64, &String)> = idn.iter().collect(); ids.sort();
+        out.push(format!("G idname {}", ids.iter().map(|(i, n)| format!("{}={}", i, escw(n))).collect::<Vec<_>>().join(",")));
+        out.push(format!("G valid {}", if self.dbs.is_oplog_valid.load(Ordering::SeqCst) { 1 } else { 0 }));
+        let flag = std::fs::read(format!("{}/is-oplog.valid", self.dir)).ok();
+        out.push(format!("G flagfile {}", match flag { Some(b) if !b.is_empty() => b[0].to_string(), _ => "-".to_string() }));
+        let kf = format!("{}/keys-nun.keys", self.dir);
+        if std::path::Path::new(&kf).exists() {
+            let m = nundb::disk_ops::load_keys_map_from_disk();
+            let mut ks: Vec<(&String, &u64)> = m.iter().collect(); ks.sort_by_key(|x| *x.1);
+            out.push(format!("G keysfile {}", ks.iter().map(|(k, i)| format!("{}={}", escw(k), i)).collect::<Vec<_>>().join(",")));
+        } else { out.push("G keysfile -".to_string()); }
+        let read_recs = |path: &str| -> String {
+            let b = std::fs::read(path).unwrap_or_default();
+            let mut v = vec![];
+            for c in b.chunks(25) { if c.len() == 25 {
+                v.push(format!("{},{},{},{}", u64::from_le_bytes(c[0..8].try_into().unwrap()), u64::from_le_bytes(c[8..16].try_into().unwrap()), u64::from_le_bytes(c[16..24].try_into().unwrap()), c[24])); } else { v.push(format!("partial{}", c.len())); } }
+            v.join(";")
+        };
+        out.push(format!("O cur {}", read_recs(&format!("{}/oplog-nun.op", self.dir))));
+        if let Ok(rd) = std::fs::read_dir(format!("{}/oplog", self.dir)) {
+            let mut es: Vec<_> = rd.filter_map(|e| e.ok()).collect();
+            es.sort_by(|a, b| b.metadata().unwrap().created().unwrap().cmp(&a.metadata().unwrap().created().unwrap()));
+            for (i, e) in es.iter().enumerate() { out.push(format!("O rot{} {}", i, read_recs(e.path().to_str().unwrap()))); }
+        }
+        out
+    }
+
     pub fn dump_files(&self) -> Vec<String> {
         let mut out = vec![];
         if let Ok(rd) = std::fs::read_dir(&self.dir) {
             let mut names: Vec<String> = rd.filter_map(|e| e.ok()).filter(|e| e.path().is_file()).map(|e| e.file_name().into_string().unwrap()).collect();
-            names.retain(|f| f.contains("-nun."));
+            names.retain(|f| f.contains("-nun.data") || f.contains("-nun.madadata"));
             names.sort_by(|a, b| a.as_bytes().cmp(b.as_bytes()));
             for f in names {
                 let c = std::fs::read(format!("{}/{}", self.dir, f)).unwrap_or_default();
@@ -168,7 +245,7 @@ impl Node {
                 out.push(format!("M {} {}", sid, esc(&Self::canon_line(&m))));
             }
         }
-        for m in drain(&mut self.repl_rx) { out.push(format!("P {}", esc(&m))); }
+        if self.repl_in.is_none() && self.repl_fut.is_none() { for m in drain(&mut self.repl_rx) { out.push(format!("P {}", esc(&m))); } }
         for m in drain(&mut self.sup_rx) { out.push(format!("V {}", esc(&m))); }
         out
     }
@@ -209,7 +286,9 @@ impl World {
         let dir = format!("{}/c{}-{}", self.base, std::process::id(), self.counter);
         let _ = std::fs::remove_dir_all(&dir);
         let (dbs, repl_rx, sup_rx) = make_dbs(&dir, role_of(role), true);
-        self.node = Some(Node { dbs, repl_rx, sup_rx, sessions: BTreeMap::new(), dir, notices: HashMap::new(), last_dump: vec![] });
+        let mut node = Node { repl_fut: None, repl_in: None, dbs, repl_rx, sup_rx, sessions: BTreeMap::new(), dir, notices: HashMap::new(), last_dump: vec![] };
+        if role.contains("pump") { node.start_loop(); }
+        self.node = Some(node);
     }
 
     pub fn step(&mut self, line: &str) -> Vec<String> {
@@ -223,6 +302,21 @@ impl World {
             let mut out = vec!["# reset".to_string()];
             out.extend(n.dump_delta());
             return out;
+        }
+        if cmd == "LOADDIR" {
+            // start-up decision + load of a prepared data directory (a crash state); no node needed
+            let dir = a1.to_string();
+            let r = std::panic::catch_unwind(std::panic::AssertUnwindSafe(|| {
+                let (dbs, repl_rx, sup_rx) = make_dbs(&dir, ClusterRole::Primary, false);
+                Databases::load_all_dbs(&dbs);
+                let t = Node { repl_fut: None, repl_in: None, dbs, repl_rx, sup_rx, sessions: BTreeMap::new(), dir: dir.clone(), notices: HashMap::new(), last_dump: vec![] };
+                t.dump_meta()
+            }));
+            if let Some(n) = self.node.as_ref() { nundb::verif::set_data_dir(Some(n.dir.clone())); }
+            return match r {
+                Ok(d) => d,
+                Err(_) => vec![format!("R PANIC restart {}", LAST_PANIC.with(|p| p.borrow_mut().take()).unwrap_or_default())],
+            };
         }
         if cmd.is_empty() { return vec![]; }
         if self.node.is_none() { self.reset("primary"); }
@@ -316,6 +410,7 @@ impl World {
                 let mut out = vec![];
                 if r.is_err() { out.push(format!("R PANIC {}", LAST_PANIC.with(|p| p.borrow_mut().take()).unwrap_or_default())); }
                 out.insert(0, format!("@ SNAP order={}", orders.join(";")));
+                if n.repl_in.is_some() { out.extend(n.dump_meta()); }
                 out.extend(n.dump_files());
                 out.extend(n.drain_all(None));
                 out.extend(n.dump_delta());
@@ -324,6 +419,8 @@ impl World {
             "RESTART" => {
                 let role = n.dbs.get_role();
                 let dir = n.dir.clone();
+                let had_loop = n.repl_in.is_some() || n.repl_fut.is_some();
+                n.repl_fut = None; n.repl_in = None;
                 n.sessions.clear(); n.notices.clear();
                 let r = std::panic::catch_unwind(std::panic::AssertUnwindSafe(|| {
                     let (dbs, repl_rx, sup_rx) = make_dbs(&dir, role, false);
@@ -333,7 +430,9 @@ impl World {
                 match r {
                     Ok((dbs, repl_rx, sup_rx)) => {
                         n.dbs = dbs; n.repl_rx = repl_rx; n.sup_rx = sup_rx;
+                        if had_loop { n.start_loop(); }
                         let mut out = vec!["# restarted".to_string()];
+                        if had_loop { out.extend(n.dump_meta()); }
                         out.extend(n.dump_files());
                         out.extend(n.dump_delta());
                         out
@@ -345,6 +444,12 @@ impl World {
                         vec!["R PANIC restart".to_string()]
                     }
                 }
+            }
+            "PUMP" => {
+                let mut out = n.pump();
+                out.extend(n.dump_meta());
+                out.extend(n.dump_delta());
+                out
             }
             "MARK" => { use std::io::Write; let _ = std::io::stderr().write_all(format!("NVHMARK {}\n", a1).as_bytes()); vec![] }
             "COPYDIR" => {
